@@ -172,6 +172,20 @@ def _processor():
     return Processor(detector=det, pipeline=pipe)
 
 
+def _scene_source(k=0):
+    """A valid one-star scene source (concrete: the scene's content is not part of the property, its emptiness is)."""
+    import numpy as _np
+    import xarray as xr
+
+    return xr.Dataset({"x": xr.DataArray([1.0 + k], dims="ref"), "y": xr.DataArray([2.0], dims="ref"), "weight": xr.DataArray([3.0], dims="ref"),
+                       "flux": xr.DataArray(_np.ones((1, 2)), dims=["ref", "wavelength"])}, coords={"ref": [0], "wavelength": [500.0, 600.0]})
+
+
+def _scene_sources(d):
+    """Number of sources the scene holds (counted over the whole tree, not only the root node)."""
+    return sum(1 for node in d.scene.data.subtree if node.has_data or len(node.data_vars)) 
+
+
 def _cluster(d, xp, number):
     """One charge cluster (particle interface) in the middle of pixel (0, 0)."""
     import numpy as np
@@ -198,6 +212,8 @@ def _drive(n, via, ts, s, nd, prior, writes, flags, symbolic, cluster_parity=1):
     det.signal._array = prior["signal"]
     det.image._array = prior["image"]
     det.charge._array = prior["charge"]
+    if prior.get("scene"):
+        det.scene.add_source(_scene_source(7))
 
     def hook(d, tag, kwargs, rec):
         if tag == "first":
@@ -207,7 +223,7 @@ def _drive(n, via, ts, s, nd, prior, writes, flags, symbolic, cluster_parity=1):
                 "photon": d.photon._array is None,
                 "signal": d.signal._array is None,
                 "image": d.image._array is None,
-                "scene": bool(d.scene.data.is_empty),
+                "scene": _scene_sources(d) == 0,
                 "charge_frame": d.charge.frame_empty(),
             }
             rec["charge_array"] = d.charge.array.copy()  # public read, as the models and the result extraction do
@@ -222,6 +238,8 @@ def _drive(n, via, ts, s, nd, prior, writes, flags, symbolic, cluster_parity=1):
                 d.signal.array = wv["signal"]
             if fl["image"]:
                 d.image.array = wv["image"]
+            if fl.get("scene", True):
+                d.scene.add_source(_scene_source(i))
             if fl["charge"]:
                 if i % 2 == cluster_parity:
                     _cluster(d, xp, wv["charge"][0, 0])  # through the particle (data-frame) interface
@@ -293,6 +311,8 @@ def loop(n, via, flags, cluster_parity=1):
         "signal": sym_array("prior_signal", SHAPE),
         "image": sym_array("prior_image", SHAPE, kind="int", dtype="uint16"),
         "charge": sym_array("prior_charge", SHAPE),
+        # the earlier run may or may not have left a scene behind (symbolic for short schedules, present otherwise)
+        "scene": bool(vx.boolean("prior_scene")) if n <= 2 and flags != "sym" else True,
     }
     writes = [
         {
@@ -308,9 +328,9 @@ def loop(n, via, flags, cluster_parity=1):
         for e in writes[i]["charge"].elems():
             vx.assume(e >= 0, "charge added by the writer probe is non-negative")
     if flags == "sym":
-        fl = [{b: vx.boolean(f"f{i}_{b}") for b in BUCKETS} for i in range(n)]
+        fl = [{b: vx.boolean(f"f{i}_{b}") for b in BUCKETS + ("scene",)} for i in range(n)]
     else:
-        fl = [{b: True for b in BUCKETS} for i in range(n)]
+        fl = [{b: True for b in BUCKETS + ("scene",)} for i in range(n)]
     tag = f"{via}/n={n}"
     with Patch() as p:
         p.numpy("pyxel.exposure.readout", "pyxel.detectors.readout_properties", *DATA_MODULES)
@@ -378,11 +398,12 @@ def fidelity_loop(kwargs, w):
     s = float(inp["s"])
     nd = bool(inp["non_destructive"])
     prior = {k: arr(f"prior_{k}", np.uint16 if k == "image" else float) for k in ("photon", "pixel", "signal", "image", "charge")}
+    prior["scene"] = bool(inp.get("prior_scene", False))
     writes = [{k: arr(f"w{i}_{k}", np.uint16 if k == "image" else float) for k in ("pixel", "photon", "signal", "image", "charge")} for i in range(n)]
     if flags == "sym":
-        fl = [{b: bool(inp[f"f{i}_{b}"]) for b in BUCKETS} for i in range(n)]
+        fl = [{b: bool(inp.get(f"f{i}_{b}", True)) for b in BUCKETS + ("scene",)} for i in range(n)]
     else:
-        fl = [{b: True for b in BUCKETS} for i in range(n)]
+        fl = [{b: True for b in BUCKETS + ("scene",)} for i in range(n)]
     accepted, recs = _drive(n, via, ts, s, nd, prior, writes, fl, False, kwargs.get("cluster_parity", 1))
     obs = unjson(w["observed"])
     if accepted != obs["accepted"]:
@@ -479,8 +500,9 @@ def replay(oid, kwargs, model, data):
     s = float(model["s"])
     nd = bool(model.get("non_destructive", False))
     prior = {k: arr(f"prior_{k}", np.uint16 if k == "image" else float) for k in ("photon", "pixel", "signal", "image", "charge")}
+    prior["scene"] = bool(model.get("prior_scene", True))
     writes = [{k: arr(f"w{i}_{k}", np.uint16 if k == "image" else float) for k in ("pixel", "photon", "signal", "image", "charge")} for i in range(n)]
-    fl = [{b: bool(model.get(f"f{i}_{b}", True)) for b in BUCKETS} for i in range(n)]
+    fl = [{b: bool(model.get(f"f{i}_{b}", True)) for b in BUCKETS + ("scene",)} for i in range(n)]
     valid = ts[0] != 0 and s < ts[0] and all(a < b for a, b in zip(ts, ts[1:]))
     accepted, recs = _drive(n, via, ts, s, nd, prior, writes, fl, False, kwargs.get("cluster_parity", 1))
     if accepted != valid:
